@@ -278,56 +278,75 @@ func cacheNamesMain(args mon.Args) {
 			snd.close()
 			continue
 		}
-		// life 2: same configuration, same working directory; data only
-		col = start()
+		// lives 2 and 3: same configuration, same working directory; data only - in the second life the templates are
+		// used, never re-announced, and saved again at its stop; the third life must still have them
+		failed := false
+		for life := 2; life <= 3 && !failed; life++ {
+			if life == 3 {
+				col.cmd.Process.Signal(syscall.SIGTERM)
+				if werr, ok := col.wait(15 * time.Second); !ok || werr != nil {
+					run.Violation("names:stop", fmt.Sprintf("%s: SIGTERM of the second life: exited=%v status=%v", desc, ok, werr), wit(col, "stop"))
+					failed = true
+					break
+				}
+			}
+			col = start()
+			if col == nil {
+				failed = true
+				break
+			}
+			for _, proto := range []string{"ipfix", "nf9"} {
+				reported := false
+				for ki, k := range keys {
+					if reported {
+						break
+					}
+					var b []byte
+					var sq uint32
+					var line string
+					ok := false
+					for try := 0; try < 4 && !ok; try++ {
+						b, sq = dataFor(proto, tpl[proto][ki])
+						snd.send(k.ip, ports[proto], b)
+						line, ok = lineOf(proto, sq, 500*time.Millisecond)
+					}
+					want := libDecode(proto, mapped(k.ip), b, lib[proto])
+					if want == nil {
+						continue
+					}
+					w := wit(col, fmt.Sprintf("in life %d", life))
+					w.Want = clip(string(want), 600)
+					w.Stderr = "first life: " + clip(life1Log, 1200) + "\nsecond life: " + clip(col.stderr(), 1200)
+					if !ok {
+						log := col.stderr()
+						if ct := crashText(log); ct != "" || !col.alive() {
+							run.Violation("names:collector-died", desc+": the collector died in its second life: "+clip(ct, 400), w)
+							reported = true
+						} else if strings.Contains(log, fmt.Sprintf("template id# %d", k.id)) || strings.Contains(log, "unknown") {
+							run.Violation("names:"+proto+":templates-lost-across-restart", fmt.Sprintf("%s: exporter %v announced %s template %d in the first life and saw it decode; in life %d (clean stops, same configuration, same working directory, no re-announcement) its data is not decoded any more (the collector reports an unknown template)", desc, k.ip, proto, k.id, life), w)
+							reported = true
+						} else {
+							run.Inconclusive(fmt.Sprintf("%s: %s data of exporter %v was not published after the restart and the collector's log does not say why", desc, proto, k.ip))
+							reported = true
+						}
+						continue
+					}
+					decodedAfter++
+					if !bytes.Equal([]byte(line), want) {
+						w.Got = clip(line, 600)
+						run.Violation("names:"+proto+":decoded-with-a-foreign-template", fmt.Sprintf("%s: in life %d %s data of exporter %v, template %d, is published differently from its decode under the template that exporter announced over %s in the first life", desc, life, proto, k.ip, k.id, proto), w)
+						reported = true
+					}
+				}
+				if reported {
+					failed = true
+				}
+			}
+		}
 		if col == nil {
 			sink.close()
 			snd.close()
 			continue
-		}
-		for _, proto := range []string{"ipfix", "nf9"} {
-			reported := false
-			for ki, k := range keys {
-				if reported {
-					break
-				}
-				var b []byte
-				var sq uint32
-				var line string
-				ok := false
-				for try := 0; try < 4 && !ok; try++ {
-					b, sq = dataFor(proto, tpl[proto][ki])
-					snd.send(k.ip, ports[proto], b)
-					line, ok = lineOf(proto, sq, 500*time.Millisecond)
-				}
-				want := libDecode(proto, mapped(k.ip), b, lib[proto])
-				if want == nil {
-					continue
-				}
-				w := wit(col, "after the restart")
-				w.Want = clip(string(want), 600)
-				w.Stderr = "first life: " + clip(life1Log, 1200) + "\nsecond life: " + clip(col.stderr(), 1200)
-				if !ok {
-					log := col.stderr()
-					if ct := crashText(log); ct != "" || !col.alive() {
-						run.Violation("names:collector-died", desc+": the collector died in its second life: "+clip(ct, 400), w)
-						reported = true
-					} else if strings.Contains(log, fmt.Sprintf("template id# %d", k.id)) || strings.Contains(log, "unknown") {
-						run.Violation("names:"+proto+":templates-lost-across-restart", fmt.Sprintf("%s: exporter %v announced %s template %d in the first life and saw it decode; after a clean stop and a start with the same configuration in the same working directory its data is not decoded any more (the collector reports an unknown template)", desc, k.ip, proto, k.id), w)
-						reported = true
-					} else {
-						run.Inconclusive(fmt.Sprintf("%s: %s data of exporter %v was not published after the restart and the collector's log does not say why", desc, proto, k.ip))
-						reported = true
-					}
-					continue
-				}
-				decodedAfter++
-				if !bytes.Equal([]byte(line), want) {
-					w.Got = clip(line, 600)
-					run.Violation("names:"+proto+":decoded-with-a-foreign-template", fmt.Sprintf("%s: after the restart %s data of exporter %v, template %d, is published differently from its decode under the template that exporter announced over %s in the first life", desc, proto, k.ip, k.id, proto), w)
-					reported = true
-				}
-			}
 		}
 		if ct := crashText(col.stderr()); ct != "" {
 			run.Violation("names:crash", desc+": "+clip(ct, 400), wit(col, "crash"))
@@ -342,7 +361,7 @@ func cacheNamesMain(args mon.Args) {
 	run.Set("ballast_templates_announced_by_other_exporters", ballast)
 	run.Set("templates_announced_and_acknowledged_in_the_first_life", announced)
 	run.Set("data_messages_decoded_after_the_restart_without_templates", decodedAfter)
-	run.SetRule("end-to-end tier: the real binary with both template caches enabled, two lives per cache-file naming (names sharing a stem in one directory, relative names with a working directory that is not the configuration directory, names with several dots; thorough adds the same name in two directories, relative sub-directory names, names without extension). Life 1: 3 exporters x 3 template ids announce over IPFIX and over NetFlow v9 (same addresses and ids, different definitions) and each template is acknowledged by a decoded message, 5000 / 4000 further exporters announce one template each (saving takes milliseconds, the two saves overlap); SIGTERM (both caches are saved concurrently). Life 2, same configuration and working directory: data without templates must be published exactly as its stand-alone decode under the template announced over its own protocol. distinct = naming")
+	run.SetRule("end-to-end tier: the real binary with both template caches enabled, two lives per cache-file naming (names sharing a stem in one directory, relative names with a working directory that is not the configuration directory, names with several dots; thorough adds the same name in two directories, relative sub-directory names, names without extension). Life 1: 3 exporters x 3 template ids announce over IPFIX and over NetFlow v9 (same addresses and ids, different definitions) and each template is acknowledged by a decoded message, 5000 / 4000 further exporters announce one template each (saving takes milliseconds, the two saves overlap); SIGTERM (both caches are saved concurrently). Lives 2 and 3, same configuration and working directory, nothing re-announced: data without templates must be published exactly as its stand-alone decode under the template announced over its own protocol (the third life starts from what the second one saved). distinct = naming")
 	run.Assume("where a relative name is resolved is the collector's business; only that both lives of one configuration agree on it is judged")
 	run.Finish()
 }
